@@ -31,7 +31,8 @@ Inductive case :=
 | AnchorRedraw (oc : bool) (iv prior broadcast : Z) (ws : list Z) (o : dres (option Z))
 | Earliest (iv nu63 funding o : Z)
 | CanonDenom (lo hi v : Z) (o : option bool)        (* None = no answer within the timeout (regression cases for the fixed zero-bound hang) *)
-| Wakeups (margin jitter tip : Z) (ts : list (Z * Z * Z)) (ws : list Z) (bf : option Z) (o : wres).
+| Wakeups (margin jitter tip : Z) (ts : list (Z * Z * Z)) (ws : list Z) (bf : option Z) (o : wres)
+| Shift (oc : bool) (iv served : Z) (pre : list stx) (ws : list Z) (o : dres (list stx)).
 
 (** equalities *)
 Definition unit_eqb (_ _ : unit) := true.
@@ -51,6 +52,7 @@ Definition consumed {A} (ws : list Z) (r : draw A) : dres A :=
 Definition dres_eqb {A} (eqa : A -> A -> bool) : dres A -> dres A -> bool :=
   outcome_eqb (pair_eqb eqa Z.eqb) unit_eqb.
 
+Definition stx_eqb (p q : stx) : bool := tx_same p q.
 Definition wk_eqb : list (Z * list Z) -> list (Z * list Z) -> bool := list_eqb (pair_eqb Z.eqb lz_eqb).
 Definition wres_eqb : wres -> wres -> bool := outcome_eqb (pair_eqb wk_eqb Z.eqb) Z.eqb.
 
@@ -85,6 +87,7 @@ Definition run_case (c : case) : bool :=
   | Earliest iv nu f o => earliest_broadcast_height iv nu f =? o
   | CanonDenom lo hi v o => option_eqb Bool.eqb (is_canonical_within_opt v lo hi) o
   | Wakeups m j tip ts ws _ o => wres_eqb (wakeups_consumed ws (schedule_sync_wakeups m j tip ts ws)) o
+  | Shift oc iv served pre ws o => dres_eqb (list_eqb stx_eqb) (consumed ws (advance_overdue oc iv served pre ws)) o
   end.
 
 (** The property on the implementation's outcome. A [Panic] of a drawing function can only be
@@ -131,6 +134,7 @@ Definition prop_case (c : case) : bool :=
       | Err id => oz_eqb (first_infeasible ts) (Some id)
       | Panic => negb (is_some (first_infeasible ts))
       end
+  | Shift _ iv served pre ws o => on_ok o (fun post k => shift_ok iv served pre post && (0 <=? k) && (k <=? Z.of_nat (length ws)))
   end.
 
 (** Known-finding classes.
@@ -157,6 +161,8 @@ Definition cls_tag (o : option classification) : Z :=
 
 Definition dtag {A} (o : dres A) (f : A -> Z -> Z) : Z :=
   match o with Ok (v, k) => f v k | Err _ => 99 | Panic => 0 end.
+
+Definition shift_unchanged_anchor (p q : stx) : bool := oz_eq (snd p) (snd q).
 
 Definition tag_caseZ (c : case) : Z :=
   match c with
@@ -192,6 +198,17 @@ Definition tag_caseZ (c : case) : Z :=
               if (h =? tip) && existsb (fun t => snd t - 1 <? tip) ts then (if 0 <? k then 57 else 56)   (* immediate wake-up *)
               else if 0 <? k then (if Z.of_nat (length wk) <? k then 60 else 59) else 58                 (* 60 = jitter rejection *)
           end
+      end
+  | Shift _ iv served pre ws o =>
+      match o with
+      | Panic => 64
+      | Err _ => 99
+      | Ok (post, k) =>
+          if list_eqb stx_eqb pre post then 65                                   (* within the tolerance: nothing moved *)
+          else if k =? 0 then 66                                                  (* moved, no redraw *)
+          else if existsb (fun pq => negb (oz_eq (snd (fst pq)) (snd (snd pq))) &&
+                                       negb (shift_unchanged_anchor (fst pq) (snd pq))) (combine pre post) then 67   (* a boundary was replaced *)
+          else 68                                                                 (* redraw attempted, prior kept *)
       end
   end.
 
